@@ -137,6 +137,35 @@ def main():
             disp.append((name, h.group(2).split("::")[-1] if h else "inline"))
     out.append("Definition dispatch_table : list (bytes * bytes) :=\n  [%s]." %
                ";\n   ".join('(bs "%s", bs "%s")' % (n, h) for n, h in disp))
+    # ---- which dispatch arms of process_normal_command speak about the connection (use conn_id), and which
+    # queued commands handle_exec runs with the real connection id instead of the placeholder 0
+    def full_arms(block):
+        arms, cur, depth = [], None, 0
+        for line in block.split("\n"):
+            stripped = line.strip()
+            if depth == 1:
+                m4 = re.match(r'(?:#\[cfg\(ferrous_verif\)\]\s*)?((?:"[A-Z]+"\s*\|\s*)*"[A-Z]+")\s*=>', stripped)
+                if m4:
+                    cur = [strings_in(m4.group(1)), ""]; arms.append(cur)
+                elif re.match(r'_\s*=>', stripped):
+                    cur = None
+            if cur is not None: cur[1] += line + "\n"
+            depth += line.count("{") - line.count("}")
+        return arms
+    conn_arms = []
+    if mm:
+        for names, body in full_arms(block_after(pn, mm.start())):
+            if re.search(r"\bconn_id\b", body):
+                conn_arms += [n for n in names if n != "VERIF"]
+    he = fn_body(server, "handle_exec") or ""
+    me = re.search(r"let\s+outcome\s*=\s*match\s+name\.as_str\(\)", he)
+    exec_arms = []
+    if me:
+        for names, body in full_arms(block_after(he, me.start())):
+            if re.search(r"\bconn_id\b", body): exec_arms += names
+    out.append("(* server.rs: dispatch arms of process_normal_command that use the connection id; queued commands that handle_exec\n   runs with the id of the connection that sent EXEC (the others run with the placeholder 0) *)")
+    out.append("Definition pnc_arms_using_conn_id : list bytes :=\n  %s." % coq_list(conn_arms))
+    out.append("Definition exec_arms_with_conn_id : list bytes :=\n  %s." % coq_list(exec_arms))
     # ---- engine census: marks / expiry / index maintenance per pub fn
     engine = read("src/storage/engine.rs")
     engine_all = engine
